@@ -414,6 +414,11 @@ def parseMessage(rawMessage, oobFDs):
             pass
 
     if m.signature:
+        if oobFDs is not None:
+            # a UNIX_FD argument refers to the descriptors that arrived with
+            # this message (the count in its UNIX_FDS header), never to the
+            # descriptors already queued for the messages that follow it
+            oobFDs = oobFDs[:getattr(m, 'unix_fds', 0)]
         nbytes, m.body = marshal.unmarshal(
             m.signature,
             m.rawBody,
